@@ -366,7 +366,17 @@ func main() {
 			hx.Fatal("%v", err)
 		}
 		deadAddr := deadLn.Addr().String()
-		deadLn.Close()
+		// (the port stays taken - another process of this check could be given it otherwise; whoever connects is hung up on)
+		defer deadLn.Close()
+		go func() {
+			for {
+				c, err := deadLn.Accept()
+				if err != nil {
+					return
+				}
+				c.Close()
+			}
+		}()
 		cfgA := config.RedisConfig{Addresses: []string{srv.Addr(), srv2.Addr()}, Type: config.RedisTypeStandalone, Otype: config.RedisTypeStandalone}
 		cfgB := config.RedisConfig{Addresses: []string{deadAddr, srv2.Addr()}, Type: config.RedisTypeStandalone, Otype: config.RedisTypeStandalone}
 		clA, err := cluster.NewRedisCluster(ctx, cfgA, *ttl)
